@@ -152,6 +152,71 @@ Lemma link_sk_rpc_handlecrash : C02_Gen.sk_rpc_handlecrash =
    "return"; "recover"; "handler"]%string.
 Proof. reflexivity. Qed.
 
+(* ------------------------------------------------------------------ deadline choice, pass-through writers, rpc chain assembly *)
+(* engine.checkedTimeout: the route's timeout if positive, else Config.Timeout ms (Model.effective_timeout) *)
+Lemma link_sk_checkedtimeout : C02_Gen.sk_checkedtimeout =
+  [
+   "return"; "time.Duration"; "return"]%string.
+Proof. reflexivity. Qed.
+
+(* engine.getLogHandler: DetailedLogHandler when Config.Verbose, else LogHandler *)
+Lemma link_sk_getlog : C02_Gen.sk_getlog =
+  [
+   "return"; "return"]%string.
+Proof. reflexivity. Qed.
+
+(* detailLoggedResponseWriter.Write: copy for the log, then the WHOLE slice to the wrapped writer, whose result is returned *)
+Lemma link_sk_dlw_write : C02_Gen.sk_dlw_write =
+  [
+   "w.buf.Write"; "w.writer.Write"; "return"]%string.
+Proof. reflexivity. Qed.
+
+(* detailLoggedResponseWriter.WriteHeader: forwarded *)
+Lemma link_sk_dlw_wh : C02_Gen.sk_dlw_wh =
+  [
+   "w.writer.WriteHeader"]%string.
+Proof. reflexivity. Qed.
+
+(* loggedResponseWriter.Write: forwarded, result returned *)
+Lemma link_sk_lw_write : C02_Gen.sk_lw_write =
+  [
+   "w.w.Write"; "return"]%string.
+Proof. reflexivity. Qed.
+
+(* loggedResponseWriter.WriteHeader: forwarded *)
+Lemma link_sk_lw_wh : C02_Gen.sk_lw_wh =
+  [
+   "w.w.WriteHeader"]%string.
+Proof. reflexivity. Qed.
+
+(* WithCodeResponseWriter.Write: forwarded, result returned *)
+Lemma link_sk_wc_write : C02_Gen.sk_wc_write =
+  [
+   "w.Writer.Write"; "return"]%string.
+Proof. reflexivity. Qed.
+
+(* WithCodeResponseWriter.WriteHeader: forwarded *)
+Lemma link_sk_wc_wh : C02_Gen.sk_wc_wh =
+  [
+   "w.Writer.WriteHeader"]%string.
+Proof. reflexivity. Qed.
+
+(* server.Start: the built-in list, append(..., s.unaryInterceptors...) / append(..., s.streamInterceptors...), both handed to grpc.NewServer *)
+Lemma link_sk_rpc_start : C02_Gen.sk_rpc_start =
+  [
+   "net.Listen"; "return"; "serverinterceptors.UnaryStatInterceptor"; "append"; "append"; 
+   "WithUnaryServerInterceptors"; "WithStreamServerInterceptors"; "append"; "grpc.NewServer"; 
+   "register"; "grpc_health_v1.RegisterHealthServer"; "s.health.Resume"; 
+   "s.healthManager.MarkReady"; "health.AddProbe"; "s.health.Shutdown"; "svr.GracefulStop"; 
+   "proc.AddWrapUpListener"; "defer:waitForCalled"; "svr.Serve"; "return"]%string.
+Proof. reflexivity. Qed.
+
+(* baseServer.AddUnaryInterceptors: appended to s.unaryInterceptors *)
+Lemma link_sk_rpc_addunary : C02_Gen.sk_rpc_addunary =
+  [
+   "append"]%string.
+Proof. reflexivity. Qed.
+
 (* ------------------------------------------------------------------ Exec's schedules are runs of the LTS *)
 Lemma h_drain_run recover fuel : forall s, exists ls, run recover ls s = Some (h_drain recover fuel s).
 Proof.
